@@ -194,6 +194,12 @@ def listed():
     add("1,2,5-thiadiazole", [S2, N, C, C, N], [(0, 1, 1), (1, 2, 2), (2, 3, 1), (3, 4, 2), (4, 0, 1)])
     add("sulfur-diamide", [S2, N, N], [(0, 1, 1), (0, 2, 1)])
     add("dimethoxy-sulfane", [S2, O, O, C, C], [(0, 1, 1), (0, 2, 1), (1, 3, 1), (2, 4, 1)])
+    # two cumulated units bound to one common sp2 centre (cross-conjugated): a pairing that lets the two units share the middle
+    # atom has the right electron count and a five-valent carbon
+    cross = [(0, 1, 2), (1, 2, 2), (2, 3, 1), (3, 4, 2), (3, 5, 1), (5, 6, 2), (6, 7, 2)]
+    add("diallenyl-ketone", [C, C, C, C, O, C, C, C], cross)
+    add("3-methylenehepta-1,2,5,6-tetraene", [C] * 8, cross)
+    add("bis-ketenyl-ketone", [O, C, C, C, O, C, C, O], cross)
     add("cyclopentadiene", [C] * 5, [(0, 1, 2), (1, 2, 1), (2, 3, 2), (3, 4, 1), (4, 0, 1)])
     add("anthracene", [C] * 14, [(0, 1, 2), (1, 2, 1), (2, 3, 2), (3, 4, 1), (4, 5, 2), (5, 0, 1), (4, 6, 1), (6, 7, 2), (7, 8, 1),
                                   (8, 9, 2), (9, 5, 1), (7, 10, 1), (10, 11, 2), (11, 12, 1), (12, 13, 2), (13, 8, 1)])
